@@ -201,6 +201,7 @@ func (p *Program) newInterp(cfg *HarnessConfig, ex *explorer, kind SolverKind, v
 		mainPkg:   p.Main,
 		extCache:  map[*ssa.Function]externalFn{},
 		verbose:   verbose,
+		tracing:   os.Getenv("SYMGO_TRACE") != "",
 	}
 	rt := p.Prog.ImportedPackage("runtime")
 	if rt == nil {
